@@ -62,6 +62,11 @@ structure St where
   word : Nat := 0
   /-- completions in the completion queue (wake messages, or anything else) -/
   cq : Nat := 0
+  /-- number of slots of the completion queue -/
+  cqLen : Nat := 64
+  /-- completions that did not fit (IORING_FEAT_NODROP): kept by the kernel in its overflow
+  list, moved into the queue, oldest first, by the next `io_uring_enter(GETEVENTS)` -/
+  ovf : Nat := 0
   /-- entries published in the submission queue, not yet consumed, oldest first:
   `true` = a wake message (MSG_RING), `false` = any other submission (an operation
   somebody started; it stays in flight once consumed: nothing completes here) -/
@@ -77,10 +82,25 @@ structure St where
 def POLLING : Nat := 1
 def AWOKEN : Nat := 2
 
+/-- The kernel posts `k` completions (KC3): into the queue while there is room and the
+overflow list is empty, onto the overflow list otherwise. -/
+def post (s : St) (k : Nat) : St :=
+  { s with
+    cq := if s.ovf = 0 then s.cq + min k (s.cqLen - s.cq) else s.cq
+    ovf := if s.ovf = 0 then k - min k (s.cqLen - s.cq) else s.ovf + k }
+
+/-- `io_uring_enter(GETEVENTS)` (and the wait loop inside it) moves overflown completions
+into the free slots of the queue. -/
+def flush (s : St) : St :=
+  { s with cq := s.cq + min s.ovf (s.cqLen - s.cq), ovf := s.ovf - min s.ovf (s.cqLen - s.cq) }
+
+/-- Completions the poller can get at: in the queue, or on the overflow list. -/
+def St.avail (s : St) : Nat := s.cq + s.ovf
+
 /-- The kernel consumes the published wake messages: each posts one completion
 (`user_data` 1) on the ring (KC7). -/
 def consume (s : St) (n : Nat) : St :=
-  { s with cq := s.cq + ((s.sq.take n).filter id).length, sq := s.sq.drop n }
+  post { s with sq := s.sq.drop n } ((s.sq.take n).filter id).length
 
 /-- `unsubmitted_submissions()` as passed to `io_uring_enter` (0 with SQPOLL). -/
 def toSubmit (s : St) : Nat := if s.mode == .sqpoll then 0 else s.sq.length
@@ -97,11 +117,13 @@ def stepP (s : St) : St :=
     let awoken := s.word / 2 % 2 == 1
     { s with word := POLLING, p := .e3 (inf && !awoken) (toSubmit s) }
   | .e3 block n =>
-    let s := consume s n
+    let s := flush (consume s n)
     if s.cq > 0 then { s with p := .c4 }
     else if block then { s with p := .waiting }
     else { s with p := .c4 }
-  | .waiting => if s.cq > 0 then { s with p := .c4 } else s
+  | .waiting =>
+    let s := flush s
+    if s.cq > 0 then { s with p := .c4 } else s
   | .c4 => { s with word := 0, p := .c5 }
   | .c5 => { s with cq := 0, p := .idle, oblig := false, returns := s.returns + 1 }
 
@@ -130,14 +152,14 @@ def stepW (s : St) (j : Nat) : St :=
       else
         let (s, ok) := tryAdd s
         { s with w := s.w.set j (.enter ok (toSubmit s)) }
-    | .sync => { s with cq := s.cq + 1, w := s.w.set j .done }
+    | .sync => { post s 1 with w := s.w.set j .done }
     | .done => s
 
 /-- The SQPOLL kernel thread consumes the submissions. -/
 def stepK (s : St) : St := if s.mode == .sqpoll then consume s s.sq.length else s
 
 /-- Something else completes (any I/O): one more completion in the queue. -/
-def stepIo (s : St) : St := { s with cq := s.cq + 1 }
+def stepIo (s : St) : St := post s 1
 
 /-- Somebody starts an operation: its submission is queued (not submitted) if
 there is room. -/
@@ -175,7 +197,7 @@ def showW : WPc → String
   | .done => "done"
 
 def showState (s : St) : String :=
-  s!"word={s.word} cq={s.cq} sq={s.sq.length} returns={s.returns}"
+  s!"word={s.word} cq={s.cq} ovf={s.ovf} sq={s.sq.length} returns={s.returns}"
 
 def parseMode (m : String) : Option Mode :=
   if m == "default" then some .default
@@ -188,8 +210,11 @@ def stepLine (s : St) (toks : List String) : St × List String :=
   | "wake" :: "begin" :: _ :: rest =>
     match (findKv "mode" rest).bind parseMode, findNat "sq" rest with
     | some m, some n =>
-      if n == 0 || n > 64 || (n &&& (n - 1)) != 0 then ({ s with p := .idle, w := [] }, ["bad-op"])
-      else ({ mode := m, sqLen := n }, [showState { mode := m, sqLen := n }])
+      -- `cq=`: size of the completion queue (a power of two, at least the submission queue's)
+      let c := (findNat "cq" rest).getD 64
+      if n == 0 || n > 64 || (n &&& (n - 1)) != 0 || c < n || c > 64 || (c &&& (c - 1)) != 0 then
+        ({ s with p := .idle, w := [] }, ["bad-op"])
+      else ({ mode := m, sqLen := n, cqLen := c }, [showState { mode := m, sqLen := n, cqLen := c }])
     | _, _ => (s, ["bad-op"])
   | ["wake", "poll", inf] =>
     if inf != "0" && inf != "1" then (s, ["bad-op"]) else
